@@ -142,7 +142,10 @@ def check(ctx):
             ctx.require(okk, 'C11.S2', 'after-cost dollars are truncated toward zero: floor when >= 0, ceil when < 0 [%s]' % tag, fe.site,
                         '%s applied when after-cost dollars %s 0' % (found, sign if sign else 'of either sign (no sign test on this path)'), key='C11.S2|toward-zero')
         ok = bool(kinds.get('pos')) and kinds.get('pos') <= {'FLOOR', 'TRUNC'} and bool(kinds.get('neg')) and kinds.get('neg') <= {'CEIL', 'TRUNC'}
-        ctx.require(ok, 'C11.S2', 'both signs are covered: >= 0 floors, < 0 ceils', lp.site, str(kinds), key='C11.S2|both-signs')
+        if not kinds:
+            ctx.undecided('C11.S2', 'both signs are covered: >= 0 floors, < 0 ceils', lp.site, 'no sizing path was read')
+        else:
+            ctx.require(ok, 'C11.S2', 'both signs are covered: >= 0 floors, < 0 ceils', lp.site, str(kinds), key='C11.S2|both-signs')
         ctx.sample({'rule': 'C11.S2', 'path': cond_str(p)[:80], 'truncation': {str(k): v for k, v in kinds.items()}})
         # NaN guard
         seen_raise = False
